@@ -225,3 +225,20 @@ pub fn iter_record_twice_same_member() {
     assert!(b[0].len() == 2, "first member does not hold the recorded length");
     assert!(b[1].len() == 0, "a second recording on the first member leaked into the second member");
 }
+
+/// recording a short fill does not move or shrink the member's writable region: a second short fill continues behind the
+/// first (seeded change C10-r7-4: as_uninit starting at `filled` while set_len stays absolute)
+#[kani::proof]
+#[kani::unwind(5)]
+pub fn iter_capacity_stable_after_record() {
+    let bufs = [mk(C0, 0, 10), mk(C1, 0, 20)];
+    let mut it = match bufs.owned_iter() { Ok(it) => it, Err(_) => { assert!(false); return; } };
+    { let d = it.as_uninit(); d[0].write(0x31); }
+    unsafe { SetLen::set_len(&mut it, 1) };
+    assert!(it.as_uninit().len() == C0, "recording a short fill changed the member's writable region");
+    { let d = it.as_uninit(); d[1].write(0x32); }
+    unsafe { SetLen::set_len(&mut it, 2) };
+    let b = it.into_inner();
+    assert!(b[0].len() == 2 && b[0][0] == 0x31 && b[0][1] == 0x32);
+    assert!(b[1].len() == 0);
+}
